@@ -336,6 +336,10 @@ def check(ctx, case):
 
 
 def finalize(ctx):
+    if ctx.tier == "thorough" and ctx.shard == 0:  # ambient contracts while the repository's own pinned tests run
+        from vf import ambient
+
+        ambient.run_tests(ctx, "C15", ["tests/test_evaluation.py::test_compute_oks"], ["compute_oks"])
     for n in ("oks_calls", "match_calls", "hungarian_calls", "greedy_calls", "iou_calls", "monotone_checks", "missing_gt_checks", "missing_pr_checks"):
         ctx.require(n, 5)
 
